@@ -40,6 +40,24 @@ def targets_leg(ck, tier):
                 sc, labels = multi.scenario(tg, threads, order, json_out=False)
                 scs.append(sc)
                 meta.append((lst, threads, order))
+    # a target whose handshake the packet reader abandons (mis-sized first packet): no algorithm lists were obtained from it, so the
+    # run as a whole never looks like a completed audit - its status is the connection-error status, whatever the other targets are
+    bad = c08.failing()['bad-block-size']
+    bscs = []
+    for lst in (('bad',), ('bad', 'good'), ('good', 'bad'), ('warn', 'bad'), ('bad', 'fail')):
+        sc, labels = multi.scenario([bad if n == 'bad' else ('server', H[n]) for n in lst], 1, None, json_out=False)
+        bscs.append((lst, sc))
+    for (lst, sc), r in zip(bscs, runner.run_many([x[1] for x in bscs])):
+        ck.evaluated()
+        if r.get('harness_error') or r.get('hang'):
+            raise common.Machinery('target-list run failed: %r' % (r.get('harness_error') or 'hang'))
+        if r['exit'] in (0, 2, 3):
+            ck.violation('target-list-incomplete-audit-looks-complete got=%s' % r['exit'],
+                         'targets %r, one of which never delivered a readable KEXINIT: the run exits %s' % (lst, r['exit']),
+                         {'targets': lst, 'argv': sc['argv'], 'exit': r['exit'], 'stdout': r['stdout'][-1500:]})
+        else:
+            ck.cov['traces_validated_against_impl'] += 1
+            ck.nontrivial(('targets-incomplete', lst))
     for (lst, threads, order), sc, r in zip(meta, scs, runner.run_many(scs)):
         ck.evaluated()
         if r.get('harness_error') or r.get('hang'):
